@@ -57,6 +57,8 @@ private:
     friend class ::tst_QXmppStream;
 
     QString m_dataBuffer;
+    // bytes of a UTF-8 sequence that was split across two reads
+    QByteArray m_undecodedBytes;
     bool m_directTls = false;
     QSslSocket *m_socket = nullptr;
 
